@@ -153,6 +153,8 @@ class Tracker:
             if self.vertical_advection:
                 # The state variable follows the particles when the state is compactified
                 W = state["w"] if "w" in state.variables else force.variables["w"]
+                if self.modules["time"].time_reversal:
+                    W = -W  # Backward tracking, as for the horizontal velocity
                 Z += W * self.dt
 
             # Reflexive boundary conditions at surface
